@@ -51,15 +51,30 @@ func Scope(
 	case schema.TypeIDScope:
 		return dataType.(schema.Scope), nil
 	case schema.TypeIDObject:
-		return schema.NewScopeSchema(
-			dataType.(*schema.ObjectSchema),
-		), nil
+		return scopeForObject(dataType.(*schema.ObjectSchema)), nil
 	default:
 		return nil, fmt.Errorf(
 			"invalid type for output root object: %s (must be an object)",
 			dataType.TypeID(),
 		)
 	}
+}
+
+// scopeForObject wraps an inferred object into a scope. The object may contain types taken over from
+// the data model that refer to objects of another scope (for example a field of the workflow input
+// whose type is a reference to an object defined in the input section). Those references are
+// already linked to their objects; re-linking them against the new scope, which does not contain
+// these objects, panics in the schema library, so in that case they are kept as they are.
+func scopeForObject(root *schema.ObjectSchema) (result schema.Scope) {
+	defer func() {
+		if r := recover(); r != nil {
+			result = &schema.ScopeSchema{
+				ObjectsValue: map[string]*schema.ObjectSchema{root.ID(): root},
+				RootValue:    root.ID(),
+			}
+		}
+	}()
+	return schema.NewScopeSchema(root)
 }
 
 // Type attempts to infer the data model from the data, possibly evaluating expressions.
